@@ -199,6 +199,72 @@ STRTO(strtod, double, __builtin_inf(), 4.9e-324)
                       desc="value_fits_into_type(value, \"%s\") for all strings of length <= %d against a contract stub of strtof/strtod (any prefix consumed, any value, ERANGE for +-overflow and underflow)" % (t, ML),
                       bounds={"string_length": "0..%d" % ML, "strto*": "nondeterministic contract stub"}, meta={"no_native": True})
         hs.append(h)
+    # ---- K4: name rule kernel (public static is_sbe_symbolic_name; <cctype> calls are libc: "C"-locale stubs in the harness)
+    cpp4 = K1_CPP + r"""
+W bool k_symname(const char* s, size_t n){ return sbepp::sbeppc::sbe_schema_validator::is_sbe_symbolic_name(std::string_view{s, n}); }
+W int64_t k_offset(bool has, uint64_t off, uint64_t minoff, const sbepp::sbeppc::source_location* loc){
+    std::optional<sbepp::offset_t> o; if(has) o = static_cast<sbepp::offset_t>(off);
+    return static_cast<int64_t>(sbepp::sbeppc::utils::get_valid_offset(o, static_cast<sbepp::offset_t>(minoff), *loc)); }
+W void k_valueref(const char* s, size_t n, int64_t* out){
+    auto r = sbepp::sbeppc::utils::parse_value_ref(std::string_view{s, n});
+    out[0] = r.enum_name.data() ? r.enum_name.data() - s : -1; out[1] = r.enum_name.size();
+    out[2] = r.enumerator.data() ? r.enumerator.data() - s : -1; out[3] = r.enumerator.size(); }
+W uint64_t k_offset_width(){ return sizeof(sbepp::offset_t); }
+"""
+    u4 = ctx.try_lower("c08k4", cpp4, std="17", mode="unchecked", exceptions=True, extra=["-DNDEBUG", "-I" + P.REPO + "/sbeppc/src", "-I" + P.FMT_PREFIX + "/include"],
+                       extern_map={"__stub_funcs__": {"throw_error": "env_throw_error", "__throw_out_of_range_fmt": "env_throw_std"}})
+    if "error" in u4:
+        raise P.EngineError("K4 kernels do not lower: %s %s" % (u4["error"], u4.get("stderr", "")[-800:]))
+    ENV4 = r"""
+void env_throw_error(void){ verif_aborted = 2; }
+void env_throw_std(void){ verif_aborted = 3; }   /* std::out_of_range from string_view::substr: nobody catches it -> would terminate sbeppc */
+/* <cctype> in the "C" locale (sbeppc never calls setlocale) */
+uint32_t isdigit(uint32_t c){ return c >= '0' && c <= '9'; }
+uint32_t isalpha(uint32_t c){ return (c >= 'A' && c <= 'Z') || (c >= 'a' && c <= 'z'); }
+uint32_t isalnum(uint32_t c){ return isdigit(c) || isalpha(c); }
+"""
+    ML = ctx.q(6, 9)
+    body = r"""
+  enum { ML = %(ml)d };
+  IN_BYTES(s, ML); IN(u32, len); VASSUME(len <= ML);
+  _Bool ok = len > 0 && !(s[0] >= '0' && s[0] <= '9');
+  for (unsigned i = 0; i < ML; i++) if (i < len) { unsigned char c = s[i]; if (!((c >= 'A' && c <= 'Z') || (c >= 'a' && c <= 'z') || (c >= '0' && c <= '9') || c == '_')) ok = 0; }
+  _Bool got = 0;
+  CALL(got = k_symname(s, len));
+  VASSERT(verif_aborted == 0, "the name kernel never throws");
+  VASSERT(got == ok, "is_sbe_symbolic_name accepts exactly [A-Za-z_][A-Za-z0-9_]* (invalid names are rejected, valid ones accepted)");
+""" % {"ml": ML}
+    hs.append(P.Harness("k4_symbolic_name", hgen.harness([u4], body, pre=ENV4), [u4], unwind=ML + 2, cap=ctx.q(200, 900), backends=["minisat", "kissat"], extra_flags=["--no-standard-checks"],
+                        desc="sbe_schema_validator::is_sbe_symbolic_name for all byte strings of length <= %d (libc <cctype> as C-locale stubs)" % ML,
+                        bounds={"string_length": "0..%d" % ML, "bytes": "all 256 values"}, meta={"no_native": True}))
+    body = r"""
+  IN(u8, has); IN(u64, off); IN(u64, minoff); IN_BYTES(loc, 64);
+  u64 w = 0; CALL(w = k_offset_width());
+  if (w < 8) { VASSUME(off < (1ull << 32)); VASSUME(minoff < (1ull << 32)); }
+  VASSUME(has <= 1);
+  i64 r = 0;
+  CALL(r = k_offset(has, off, minoff, loc));
+  if (has && off < minoff) VASSERT(verif_aborted == 2, "a custom offset below the minimum is rejected (throw_error)");
+  else { VASSERT(verif_aborted == 0, "an offset at or above the minimum, or no custom offset, is accepted");
+         VASSERT((u64)r == (has ? off : minoff), "the effective offset is the custom one when given, else the running minimum"); }
+"""
+    hs.append(P.Harness("k5_valid_offset", hgen.harness([u4], body, pre=ENV4), [u4], unwind=2, cap=ctx.q(200, 900), backends=["minisat", "kissat"], extra_flags=["--no-standard-checks"],
+                        desc="utils::get_valid_offset(custom offset, minimum): rejects exactly custom < minimum, for all offset values", bounds={"offset": "full offset_t range", "minimum": "full offset_t range"},
+                        meta={"no_native": True}))
+    body = r"""
+  enum { ML = %(ml)d };
+  IN_BYTES(s, ML); IN(u32, len); VASSUME(len <= ML);
+  i64 out[4] = {0, 0, 0, 0};
+  CALL(k_valueref(s, len, out));
+  unsigned dot = ML + 1;
+  for (unsigned i = 0; i < ML; i++) if (i < len && s[i] == '.' && dot == ML + 1) dot = i;
+  VASSERT(verif_aborted == 0, "parse_value_ref never throws");
+  if (dot == ML + 1) VASSERT(out[1] == 0 && out[3] == 0, "a valueRef without a dot has no enum name and no enumerator");
+  else { VASSERT(out[0] == 0 && out[1] == (i64)dot, "enum name == text before the first dot");
+         VASSERT(out[3] == (i64)(len - dot - 1) && (out[3] == 0 || out[2] == (i64)dot + 1), "enumerator == text after the first dot"); }
+""" % {"ml": ML}
+    hs.append(P.Harness("k7_value_ref", hgen.harness([u4], body, pre=ENV4), [u4], unwind=ML + 2, cap=ctx.q(200, 900), backends=["minisat", "kissat"], extra_flags=["--no-standard-checks"],
+                        desc="utils::parse_value_ref splits 'enum.enumerator' at the first dot, for all byte strings of length <= %d" % ML, bounds={"string_length": "0..%d" % ML}, meta={"no_native": True}))
     # ---- K3
     work = ctx.slot.path("rules", "x")[:-2]
     variants = [("ok", dict(BASE))] + [(k, dict(BASE, **v)) for k, v in TWINS.items()]
